@@ -482,7 +482,7 @@ func runC38(c *core.Ctx) error {
 			mcCfg{name: "one-call-closes-timeout", calls: []int{1}, nc1: 1, workers: 1, memLimit: 1, closes: 2, tmo: []int{1}, cancel: []int{1}, outs: fewOuts, orphans: true},
 			mcCfg{name: "one-conn-faults", calls: []int{1, 2}, nc1: 2, workers: 1, memLimit: 1, cuts: 1, proxy: 2, tmo: []int{2}, ff: []int{2}, cancel: []int{1}, outs: fewOuts, orphans: true},
 			mcCfg{name: "two-clients-close-cancel", calls: []int{1, 2}, nc1: 1, workers: 1, memLimit: 1, closes: 1, cancel: []int{1}, outs: []string{"ok", "cancelled"}, orphans: true},
-			mcCfg{name: "three-calls", calls: []int{1, 2, 3}, nc1: 2, workers: 1, memLimit: 2, closes: 1, cancel: []int{1}, outs: []string{"ok", "cancelled"}, orphans: false},
+			mcCfg{name: "three-calls", calls: []int{1, 2, 3}, nc1: 2, workers: 1, memLimit: 2, closes: 1, outs: []string{"ok", "cancelled"}, orphans: false},
 		)
 	}
 	cover := map[string]int{}
